@@ -21,6 +21,7 @@ CHECKS = {
     "C11": ("C", "5 C11", "real Normalize fed with synthetic contract-abiding histories from abstract concurrent emitters (incl. orders runner::Basic never produces), slow inner writer; losslessness, immediate forwarding, maximal progress after every call, final shape"),
     "C12": ("C", "5 C12", "real Summarize (alone, inside/outside Repeat, inside FailOnSkipped, outside Normalize) fed with synthetic histories; all getters, steps/scenarios stats and the parsed summary text compared with an independent fold over the stream the inner writer received"),
     "C13": ("C", "5 C13", "real FailOnSkipped / Repeat / Tee / Or and nestings fed with contract-abiding and arbitrary (shuffled, truncated, duplicated) streams; recording inner writers (independently slow on each side)"),
+    "C14": ("R", "5 C14", "the four real reporters behind the real Normalize, fed with synthetic contract-abiding histories (names with quotes, markup, backslashes, non-ASCII; path-less features; retries; hook failures; parser errors; reporter options) and writing into a sink with short writes and EINTR; the output is parsed back (line / JSON / XML readers) and the multiset of facts compared with the facts of the stream, plus libtest started/result pairing, totals and verdict"),
     "C20": ("T", "5 C20", "real tracing integration (global subscriber, Collector, span-close handshake) with 1-8 scenarios logging concurrently before and after await points, retries, slow and failing callbacks; one simulated run per process; each emitted token must arrive exactly once as a Log event of the emitting attempt between the emitter's Started and result events"),
 }
 
@@ -33,8 +34,6 @@ NOT_APPLICABLE = {
 }
 
 PENDING = {
-    "C14": "not claimed yet: reporter parse-back oracle under construction (DESIGN.md section 5, C14)",
-    "C20": "not claimed yet: tracing attribution check under construction (DESIGN.md section 5, C20)",
 }
 
 
